@@ -25,7 +25,7 @@ func H_C20_jws_seq() {
 	// first attempt: a plain request that succeeds
 	focusS = 4
 	req1 := buildRequestS()
-	out1, err1 := e.Sign(req1)
+	out1, err1 := signAndCheckJWS(e, req1, true)
 	if err1 != nil {
 		return
 	}
@@ -41,7 +41,9 @@ func H_C20_jws_seq() {
 	focusS = 3
 	thePayloadBytes = nil
 	req2 := buildRequestS()
-	out2, err2 := e.Sign(req2)
+	// everything a signing attempt must satisfy (C16 rejection of invalid requests - in particular a signer whose leaf key
+	// does not dictate the declared algorithm -, C08 content = request, C15.L3) also on an object that holds a signature
+	out2, err2 := signAndCheckJWS(e, req2, false)
 	a, ea := e.Content()
 	b, eb := e.Content()
 	rt.Assert((ea == nil) == (eb == nil), "C20.jws.content.pure")
